@@ -365,7 +365,7 @@ def run(chk):
                         'dominated by an emptiness test', floor=80)
     q4 = chk.rule('Q4', 'full queue forces completion of the oldest job; completion loops terminate only on status >= COMPLETED',
                   floor=40)
-    q5 = chk.rule('Q5', 'job-API and burst-API siblings (resubmit / submit_new / complete) have the same event skeleton', floor=20)
+    q5 = chk.rule('Q5', 'job-API and burst-API siblings (resubmit / submit_new / complete) run the same stage operations for each chain order', floor=20)
     q6 = chk.rule('Q6', 'get_next_burst hands out no more slots than are free: the requested count is used only in parameter guards and in '
                         'the clamp against the free count', floor=8)
     nvar = 0
@@ -496,9 +496,27 @@ def run(chk):
         # queue_sz first test
         if P.has(tu, 'queue_sz'):
             f = P.func(tu, 'queue_sz')
-            t = f.blocks[f.succ(f.entry)[0]].get('term') if f.succ(f.entry) else None
-            c = guards.canon(t.get('fullcond') or t['cond']) if t and t.get('cond') else None
-            q3.check(c == 'state->earliest_job < 0', '%s:queue_sz' % vt, f.loc, 'queue_sz does not start with the emptiness test (%s)' % c)
+            dom_ = f.dominators()
+            # whatever the statement shape (early return, or the computation nested under the test): the ring offsets are read only on the
+            # non-empty side of an emptiness test, and the empty side returns 0
+            reads = [(b, ev) for b, _, ev in f.calls() if ev['e'].get('fn') in ('get_queue_sz', 'get_queue_sz_end', 'JOBS')]
+            okq = bool(reads) and all(_nonempty_here(P, tu, f, b, dom_) for b, _ in reads)
+            empties = []
+            for d, db in f.blocks.items():
+                t = db.get('term')
+                if t and t['kind'] == 'IfStmt' and len(db['succ']) == 2:
+                    c = guards.canon(t.get('fullcond') or t['cond'])
+                    if c == 'state->earliest_job < 0':
+                        empties.append(db['succ'][0])
+                    elif c == 'state->earliest_job >= 0':
+                        empties.append(db['succ'][1])
+            okz = bool(empties)
+            for e_ in empties:
+                okr, _ = cf.walk_paths_must(f, e_, None, lambda ev: ev['k'] == 'return' and cf.evalc(ev.get('val')) == 0,
+                                            lambda ev: ev['k'] == 'return')
+                okz = okz and okr
+            q3.check(okq and okz, '%s:queue_sz' % vt, f.loc,
+                     'queue_sz reads the ring offsets without the emptiness test (state->earliest_job < 0) guarding them, or does not return 0 for an empty queue')
         # ---- Q4
         sj = roles.get('submit_job')
         for fn in closure(P, tu, [sj]):
@@ -533,11 +551,14 @@ def run(chk):
                 q4.check(okl, '%s:%s:loop%d' % (vt, fn, nloops), t['loc'], '%s loops while `%s`, expected `%s`' % (fn, c, want))
             q4.check(nloops >= 1, '%s:%s:loops' % (vt, fn), f.loc, '%s has no completion loop' % fn)
         # ---- Q5
+        orders = P.enum_types.get('IMB_CHAIN_ORDER', {})
         for a, b_ in (('RESUBMIT_JOB', 'RESUBMIT_BURST_JOB'), ('submit_new_job', 'submit_new_burst_job'), ('complete_job', 'complete_burst_job')):
             if P.has(tu, a) and P.has(tu, b_):
-                sa, sb = skeleton(P.func(tu, a)), skeleton(P.func(tu, b_))
-                q5.check(sa == sb, '%s:%s~%s' % (vt, a, b_), P.func(tu, b_).loc,
-                         '%s and %s differ in structure: %s vs %s' % (a, b_, _firstdiff(sa, sb), ''))
+                for oname, ov in sorted(orders.items()):
+                    for st_name, stv in (('no stage done', None),):
+                        sa, sb = stage_calls(P, tu, a, ov), stage_calls(P, tu, b_, ov)
+                        q5.check(sa == sb, '%s:%s~%s:%s' % (vt, a, b_, oname), P.func(tu, b_).loc,
+                                 '%s and %s run different stages for chain order %s: %s vs %s' % (a, b_, oname, sorted(sa), sorted(sb)))
             else:
                 q5.bad('%s:%s~%s' % (vt, a, b_), tu, 'sibling pair not found')
     if nvar < 8:
@@ -558,6 +579,38 @@ def role_name(n):
 SIB = {'SUBMIT_JOB_CIPHER': 'CIPHER_SUBMIT', 'CALL_SUBMIT_CIPHER': 'CIPHER_SUBMIT', 'SUBMIT_JOB_HASH': 'HASH_SUBMIT',
        'CALL_SUBMIT_HASH': 'HASH_SUBMIT', 'FLUSH_JOB_CIPHER': 'CIPHER_FLUSH', 'CALL_FLUSH_CIPHER': 'CIPHER_FLUSH',
        'FLUSH_JOB_HASH': 'HASH_FLUSH', 'CALL_FLUSH_HASH': 'HASH_FLUSH', 'RESUBMIT_JOB': 'RESUBMIT', 'RESUBMIT_BURST_JOB': 'RESUBMIT'}
+
+
+def stage_calls(P, tu, fname, order, depth=0, seen=None):
+    """the stage operations (cipher / hash submit and flush, resubmit) a function can reach for one chain order, each with the
+    ordinal of its first occurrence on a path — through helpers of the same TU, not into the dispatch functions themselves"""
+    seen = seen if seen is not None else set()
+    if (fname, order) in seen or depth > 3 or not P.has(tu, fname):
+        return set()
+    seen.add((fname, order))
+    f = P.func(tu, fname)
+    out = set()
+    for b in f.reachable(None, {'.chain_order': order}):
+        for ev in f.blocks[b]['ev']:
+            for k in ('e', 'rhs', 'val', 'lhs'):
+                for n in cf.walk(ev.get(k) or {}):
+                    if n.get('k') != 'call' or not n.get('fn'):
+                        continue
+                    rn = role_name(n['fn'])
+                    if rn in ('CIPHER_SUBMIT', 'HASH_SUBMIT', 'CIPHER_FLUSH', 'HASH_FLUSH', 'RESUBMIT'):
+                        out.add(rn)
+                    elif P.has(tu, n['fn']):
+                        out |= stage_calls(P, tu, n['fn'], order, depth + 1, seen)
+            if ev['k'] == 'decl':
+                for d in ev['d']:
+                    for n in cf.walk(d.get('init') or {}):
+                        if n.get('k') == 'call' and n.get('fn'):
+                            rn = role_name(n['fn'])
+                            if rn in ('CIPHER_SUBMIT', 'HASH_SUBMIT', 'CIPHER_FLUSH', 'HASH_FLUSH', 'RESUBMIT'):
+                                out.add(rn)
+                            elif P.has(tu, n['fn']):
+                                out |= stage_calls(P, tu, n['fn'], order, depth + 1, seen)
+    return out
 
 
 def skeleton(f):
@@ -640,9 +693,9 @@ def _nonempty_here(P, tu, f, b, dom):
         if not t or t['kind'] != 'IfStmt' or len(db['succ']) != 2:
             continue
         c = guards.canon(t.get('fullcond') or t['cond'])
-        if c == 'state->earliest_job < 0':
-            # either the false successor dominates b, or the true branch terminates / establishes non-emptiness
-            fs, ts = db['succ'][1], db['succ'][0]
+        if c in ('state->earliest_job < 0', 'state->earliest_job >= 0'):
+            # either the non-empty successor dominates b, or the empty branch terminates / establishes non-emptiness
+            fs, ts = (db['succ'][1], db['succ'][0]) if c == 'state->earliest_job < 0' else (db['succ'][0], db['succ'][1])
             if fs in dom.get(b, ()) and (ts not in dom.get(b, ())):
                 return True
             tb = f.blocks[ts]
